@@ -85,27 +85,35 @@ Definition canon_events (l : list event) : list event := sort_by ev_key l.
 Definition canon_built (l : list (Z * Z)) : list (Z * Z) := sort_by (fun p => fst p * 1000 + snd p) l.
 
 (* which field of which step differs first: step*100 + field (0 = equal) *)
-Definition out_diff (is_frame : bool) (a b : out) : Z :=
+Definition out_diff_k (key : event -> Z) (is_frame : bool) (a b : out) : Z :=
   first_fail
     [ (1, list_eqb event_eqb (x_pre a) (x_pre b));
       (2, if is_frame then list_eqb event_eqb (x_main a) (x_main b)
-          else list_eqb event_eqb (canon_events (x_main a)) (canon_events (x_main b)));
-      (3, list_eqb event_eqb (canon_events (x_post a)) (canon_events (x_post b)));
+          else list_eqb event_eqb (sort_by key (x_main a)) (sort_by key (x_main b)));
+      (3, list_eqb event_eqb (sort_by key (x_post a)) (sort_by key (x_post b)));
       (4, list_eqb logitem_eqb (x_log a) (x_log b));
       (5, list_eqb snap_entry_eqb (x_snaps a) (x_snaps b)); (6, list_eqb mirror_eqb (x_mirror a) (x_mirror b));
       (7, list_eqb zz_eqb (canon_built (x_built a)) (canon_built (x_built b))); (8, Bool.eqb (x_probe a) (x_probe b));
       (9, Bool.eqb (x_update a) (x_update b)); (10, Bool.eqb (x_panicked a) (x_panicked b)) ].
+Definition out_diff := out_diff_k ev_key.
+(* model against implementation: only the order ACROSS context types is left open (the order in which Bevy runs the
+   per-type observers); inside a context type the order of closing events - instances in vector order, actions in
+   binding order - is compared.  An action bound by several context types falls back to the (action, target) key. *)
+Definition ctxs_of_action (sc : scenario) (a : Z) : list Z :=
+  dedup (flat_map (fun x => if existsb (fun s => Z.eqb (a_id s) a) (i_actions (snd x)) then [fst (fst x)] else []) (s_cfg sc)).
+Definition ctx_key (sc : scenario) (e : event) : Z :=
+  match ctxs_of_action sc (e_action e) with [c] => c | _ => 1000 + ev_key e end.
 Definition is_frame (s : step) : bool := match s with SFrame _ => true | _ => false end.
-Fixpoint outs_diff (i : Z) (steps : list step) (a b : list out) : Z :=
+Fixpoint outs_diff (key : event -> Z) (i : Z) (steps : list step) (a b : list out) : Z :=
   match a, b with
   | [], [] => 0
   | x :: r, y :: s =>
-      let d := out_diff (match steps with st :: _ => is_frame st | [] => false end) x y in
-      if Z.eqb d 0 then outs_diff (i + 1) (tl steps) r s else i * 100 + d
+      let d := out_diff_k key (match steps with st :: _ => is_frame st | [] => false end) x y in
+      if Z.eqb d 0 then outs_diff key (i + 1) (tl steps) r s else i * 100 + d
   | _, _ => i * 100 + 99
   end.
 Definition trace_diff (sc : scenario) (t : trace_t) : Z :=
-  match t with trace outs => outs_diff 0 (s_steps sc) (run sc) outs | panic => 9999 end.
+  match t with trace outs => outs_diff (ctx_key sc) 0 (s_steps sc) (run sc) outs | panic => 9999 end.
 Definition agree_full (p : scenario * trace_t) : bool := Z.eqb (trace_diff (fst p) (snd p)) 0.
 
 (* ---- helpers for the per-property judgements on implementation traces ---- *)
